@@ -13,6 +13,9 @@ import (
 
 func init() { register(&Check{ID: "C14", Run: runC14}) }
 
+// constants named like the poryswitch case labels and switch values used below (a case label is not a constant position)
+const c14Consts = "const X = 11\nconst Y = 12\nconst Z = X\n"
+
 type mvElem struct {
 	src   string   // source spelling (with V=X selected for poryswitch elements)
 	steps []string // expected expansion (nil if invalid)
@@ -138,9 +141,9 @@ func runC14(tier string) int {
 					var seq2 []mvElem
 					switch form {
 					case 0:
-						src, label = "movement M {\n\t\t"+list+"\n}\n", "M"
+						src, label = c14Consts+"movement M {\n\t\t"+list+"\n}\n", "M"
 					case 1:
-						src, label = "script S {\n\tapplymovement(1, moves("+list+"))\n}\n", "S_Movement_0"
+						src, label = c14Consts+"script S {\n\tapplymovement(1, moves("+list+"))\n}\n", "S_Movement_0"
 					default:
 						if bad || heavy > 0 || sep != 0 {
 							continue
@@ -152,7 +155,7 @@ func runC14(tier string) int {
 							}
 						}
 						seq2 = append(append([]mvElem{}, seq...), mvElem{src: last, steps: []string{last}})
-						src, label = "script S {\n\tapplymovement(1, moves("+list+"))\n\tapplymovement(2, moves("+list+" "+last+"))\n}\n", "S_Movement_0"
+						src, label = c14Consts+"script S {\n\tapplymovement(1, moves("+list+"))\n\tapplymovement(2, moves("+list+" "+last+"))\n}\n", "S_Movement_0"
 					}
 					res := comp.Compile(src, comp.Opts{Optimize: true, Switches: sw})
 					r.Add("evaluations", 1)
@@ -229,7 +232,7 @@ func runC14(tier string) int {
 	r.Assume("multipliers with a leading zero are not generated (octal vs decimal is not specified)",
 		"expected expansion is computed by the generator: N copies in order, cut after the first step_end, exactly one step_end last")
 	return r.Finish(r.Get("evaluations"), r.Get("nontrivial"),
-		"every movement list of <= L elements over 43 element kinds (3 steps x 12 multipliers incl. 0, negative, 9999, 10000, hex and a 20-digit number; 7 poryswitch-selected segments in colon, brace and nested forms incl. a nested poryswitch as the element of a colon case that other cases follow) x statement / moves() form (and two moves() in one script that differ only in the length of the last run) x 3 separator styles; every mart list of <= M items over plain items, ITEM_NONE, constants (one equal to ITEM_NONE) and poryswitch segments; plus 'step * N' for every N in 1..10005, decimal and hex, statement and moves(); plus lists of K different steps and marts of K items for every K up to the bound in the coverage; plus every identifier-like literal of the compiler's own source as a step and as a mart item; plus one script holding every moves() list of 6 (thorough 7) steps over 8 names; non-trivial = a multiplier > 1 or a multi-step segment is present")
+		"every movement list of <= L elements over 43 element kinds (3 steps x 12 multipliers incl. 0, negative, 9999, 10000, hex and a 20-digit number; 7 poryswitch-selected segments in colon, brace and nested forms incl. a nested poryswitch as the element of a colon case that other cases follow) x statement / moves() form (and two moves() in one script that differ only in the length of the last run) x 3 separator styles; every mart list of <= M items over plain items, ITEM_NONE, constants (one equal to ITEM_NONE) and poryswitch segments; plus 'step * N' for every N in 1..10005, decimal and hex, statement and moves(); plus lists of K different steps and marts of K items for every K up to the bound in the coverage; plus every identifier-like literal of the compiler's own source as a step and as a mart item; plus one script holding every moves() list of 6 (thorough 7) steps over 8 names; every file defines constants named like the case labels; non-trivial = a multiplier > 1 or a multi-step segment is present")
 }
 
 // c14Scaled: the size dimension. Every multiplier value from 1 to 10005,
@@ -509,7 +512,7 @@ func c14Marts(r *harness.Run, tier string, sw map[string]string) {
 				if sep == 1 {
 					list = strings.Join(parts, "\n\t")
 				}
-				src := "const CI = ITEM_X\nconst CN = ITEM_NONE\nmart M {\n\t" + list + "\n}\n"
+				src := c14Consts + "const CI = ITEM_X\nconst CN = ITEM_NONE\nmart M {\n\t" + list + "\n}\n"
 				res := comp.Compile(src, comp.Opts{Optimize: true, Switches: sw})
 				r.Add("evaluations", 1)
 				r.Add("mart_lists", 1)
